@@ -246,6 +246,22 @@ theorem overhead_facts :
     clientRtcpOverhead = srtcpOverhead ∧ sessionRtcpOverhead = srtcpOverhead ∧
     streamRtcpOverhead = srtcpOverhead ∧ mcastRtcpOverhead = srtcpOverhead := by decide
 
+/-- the shape of the code the model mirrors (each fact is a pattern that must still match the source):
+the three `writePacketRTP` functions marshal into a buffer of exactly the plain limit and return the
+marshal error; the four `writePacketRTCP` functions compare `len` with the limit and return an error;
+pion checks header and payload against the buffer; the frame marshaller copies into the caller's
+buffer; both `Start` functions apply the bit trick; the TCP frame buffers are `MaxPacketSize + 4`. -/
+theorem code_shape_facts :
+    clientRtpMarshalsIntoLimit = true ∧ streamRtpMarshalsIntoLimit = true ∧ sessionRtpMarshalsIntoLimit = true ∧
+    clientRtcpLenCheck = true ∧ streamRtcpLenCheck = true ∧ sessionRtcpLenCheck = true ∧ mcastRtcpLenCheck = true ∧
+    rtpSizeAddsPayloadAndPadding = true ∧ rtpHeaderSizeCheck = true ∧ frameMarshalCopies = true ∧
+    clientPow2Check = true ∧ serverPow2Check = true ∧
+    clientTcpBufferExtra = 4 ∧ sessionTcpBufferExtra = 4 ∧
+    clientDefaultWriteQueueSize = 256 ∧ serverDefaultWriteQueueSize = 256 ∧
+    clientDefaultMaxPacketSize = udpMaxPayloadSize ∧ serverDefaultMaxPacketSize = udpMaxPayloadSize ∧
+    clientMaxPacketSizeLimit = udpMaxPayloadSize ∧ serverMaxPacketSizeLimit = udpMaxPayloadSize ∧
+    udpMaxPayloadSize = 1472 := by decide
+
 /-- the firewall-opening datagrams are 12 / 8 bytes in the clear and 22 + |mki| bytes under SRTP;
 they respect every maximum of at least 22 + |mki| bytes (they are not checked against it) -/
 theorem punch_sizes (ctx : Option Nat) (max : Nat) :
